@@ -27,7 +27,7 @@ pub struct RunCfg {
     pub extra_env: Vec<(String, String)>,
 }
 
-fn noisy_env(rng: &mut Rng) -> Vec<(String, String)> {
+fn noisy_env(rng: &mut Rng, dict: &[String]) -> Vec<(String, String)> {
     let mut v = vec![
         ("O2O_DEBUG".to_string(), "1".to_string()),
         ("O2O_LOG".to_string(), "trace".to_string()),
@@ -41,6 +41,12 @@ fn noisy_env(rng: &mut Rng) -> Vec<(String, String)> {
         ("DOCS_RS".to_string(), "1".to_string()),
     ];
     v.push(("SIM_JUNK".to_string(), "j".repeat(rng.range(100, 3000))));
+    // names from the expander's own sources (dictionary)
+    for k in dict {
+        if !v.iter().any(|e| &e.0 == k) {
+            v.push((k.clone(), "1".to_string()));
+        }
+    }
     v
 }
 
@@ -293,12 +299,12 @@ pub fn select_items(cfg: &Cfg, corpus: &Corpus) -> Result<Selected, String> {
     Ok(Selected { rej, acc, pan, candidates: n })
 }
 
-pub fn plan_runs(seed: u64, n: usize) -> Vec<RunCfg> {
+pub fn plan_runs(seed: u64, n: usize, dict: &[String]) -> Vec<RunCfg> {
     let mut rng = Rng::new(seed ^ 0x72_756e_73);
     let mut v = vec![RunCfg { entropy_seed: 0, extra_env: vec![] }];
     for i in 1..n {
         // with only two runs the second one carries the noisy environment
-        let extra_env = if i % 2 == 0 || n == 2 { noisy_env(&mut rng) } else { vec![] };
+        let extra_env = if i % 2 == 0 || n == 2 { noisy_env(&mut rng, dict) } else { vec![] };
         v.push(RunCfg { entropy_seed: 1 + rng.next_u64() % 0xFFFF_FFFF, extra_env });
     }
     v
@@ -331,7 +337,7 @@ pub fn run(cfg: &Cfg, corpus: &Corpus) -> Result<TierResult, String> {
     let base = cfg.build_dir.join("rustc-tier");
     let thorough = cfg.tier == "thorough";
     let n_runs: usize = std::env::var("SIM_RUSTC_RUNS").ok().and_then(|s| s.parse().ok()).unwrap_or(if thorough { 8 } else { 2 });
-    let runs = plan_runs(cfg.seed, n_runs);
+    let runs = plan_runs(cfg.seed, n_runs, &corpus.dict_env);
     let mut summary = Vec::new();
     let mut violation = None;
     let mut compiles = 0;
